@@ -219,10 +219,12 @@ def check_extract(ctx, case):
 def check_peaks(ctx, case):
     data, dist, height = case['data'], case['distance'], case['height']
     d0 = data.copy()
-    out = must(case, 'find_peaks(distance=%d, height=%r) on %s' % (dist, height, data.tolist()), sp.find_peaks, gen.L(case, data), dist, height)
+    out = must(case, 'find_peaks(distance=%d, height=%r) on %s' % (dist, height, data.tolist() if len(data) <= 64 else '%d samples' % len(data)), sp.find_peaks, gen.L(case, data), dist, height)
     out = [int(v) for v in np.asarray(out).reshape(-1)]
     n = len(data)
-    cand = [i for i in range(n) if (i == 0 or data[i] >= data[i - 1]) and (i == n - 1 or data[i] >= data[i + 1]) and data[i] >= height]
+    ge_prev = np.concatenate([[True], data[1:] >= data[:-1]])
+    ge_next = np.concatenate([data[:-1] >= data[1:], [True]])
+    cand = [int(i) for i in np.nonzero(ge_prev & ge_next & (data >= height))[0]]
     cs = set(cand)
     if any(i not in cs for i in out):
         raise Violation('find_peaks returned %s: index %s is not a local maximum >= height' % (out, [i for i in out if i not in cs][:3]), case)
@@ -232,16 +234,18 @@ def check_peaks(ctx, case):
         raise Violation('find_peaks returned %s: two peaks closer than min_peak_distance=%d' % (out, dist), case)
     kept = set(out)
     dropped = [i for i in cand if i not in kept]
+    import bisect
     for i in dropped:
-        if not any(j != i and abs(j - i) < dist and data[j] >= data[i] for j in cand):
+        lo, hi = bisect.bisect_right(cand, i - dist), bisect.bisect_left(cand, i + dist)      # candidates j with |j - i| < dist
+        if not any(j != i and data[j] >= data[i] for j in cand[lo:hi]):
             raise Violation('find_peaks dropped candidate %d (value %r) although no other candidate within %d samples is at least as large; candidates %s, returned %s' % (
-                i, float(data[i]), dist, cand, out), case)
+                i, float(data[i]), dist, cand if len(cand) <= 40 else '%d candidates' % len(cand), out if len(out) <= 40 else '%d peaks' % len(out)), case)
     if not np.array_equal(data, d0):
         raise Violation('find_peaks modified its input', case)
     if currently_in_test_context():
         target(float(len(dropped)), label='dropped candidates')
     ctx.case(case, len(dropped) > 0, ['peaks', 'dropped>0' if dropped else 'dropped=0', 'candidates>=3' if len(cand) >= 3 else 'candidates<3',
-                                      'last_is_candidate' if cand and cand[-1] == n - 1 else 'last_not_candidate'])
+                                      'last_is_candidate' if cand and cand[-1] == n - 1 else 'last_not_candidate'] + (['long_signal:%d' % n] if n > 200 else []))
 
 
 def check_width(ctx, case):
@@ -282,7 +286,7 @@ def check_width(ctx, case):
     ctx.case(case, bool(runs) or rejected > 0, ['width', 'runs>0' if runs else 'runs=0', 'rejected>0' if rejected else 'rejected=0', direction])
 
 
-CHECKS = {'moving': check_moving, 'pattern': check_pattern, 'pad': check_pad, 'extract': check_extract, 'peaks': check_peaks, 'width': check_width}
+CHECKS = {'moving': check_moving, 'pattern': check_pattern, 'pad': check_pad, 'extract': check_extract, 'peaks': check_peaks, 'peaks_long': check_peaks, 'width': check_width}
 
 
 def replay(ctx, case):
@@ -382,6 +386,23 @@ def peaks_cases(draw):
     return {'kind': 'peaks', 'data': data, 'distance': dist, 'height': height}
 
 
+LONG_LENGTHS = [127, 128, 129, 255, 256, 257, 32767, 32768, 32769, 40000, 65535, 65536, 65537, 70000]
+
+
+@st.composite
+def peaks_long_cases(draw):
+    """long signals (lengths around the limits of 8/16-bit positions): a noisy floor with a few spikes, some of them near the end"""
+    n = draw(st.sampled_from(LONG_LENGTHS)) + draw(st.sampled_from([0, 0, 1, -1, 3]))
+    g = np.random.Generator(np.random.PCG64(draw(st.integers(0, 2 ** 63))))
+    dt = draw(st.sampled_from(['float64', 'float32', 'int32', 'int16', 'uint16']))
+    floor = g.integers(0, draw(st.sampled_from([1, 3, 50, 1000])), size=n)
+    for pos in [n - 1 - draw(st.integers(0, 40)), n // 2 + draw(st.integers(-5, 5)), draw(st.integers(0, n - 1)), draw(st.integers(max(0, n - 300), n - 1))]:
+        floor[pos] += draw(st.sampled_from([2000, 5000]))
+    dist = draw(st.sampled_from([0, 1, 2, 5, 50, 300]))
+    height = draw(st.sampled_from([float('-inf'), 1500, 1500, 0]))
+    return {'kind': 'peaks', 'data': floor.astype(dt), 'distance': dist, 'height': height}
+
+
 @st.composite
 def width_cases(draw):
     data = draw(signal_1d())
@@ -400,7 +421,7 @@ def width_cases(draw):
     return {'kind': 'width', 'data': data, 'direction': direction, 'threshold': thr, 'min_width': mn, 'max_width': mx, 'delta': delta}
 
 
-STRATS = {'moving': moving_cases, 'pattern': pattern_cases, 'pad': pad_cases, 'extract': extract_cases, 'peaks': peaks_cases, 'width': width_cases}
+STRATS = {'moving': moving_cases, 'pattern': pattern_cases, 'pad': pad_cases, 'extract': extract_cases, 'peaks': peaks_cases, 'peaks_long': peaks_long_cases, 'width': width_cases}
 
 
 def unit_generated(ctx, which, n):
@@ -432,6 +453,7 @@ def units(tier):
     for which, n in (('moving', 700), ('pattern', 500), ('pad', 300), ('extract', 300), ('peaks', 3000), ('width', 3000)):
         for i in range(2 if which in ('moving', 'pattern', 'peaks') else 1):
             us.append({'name': 'gen-%s-%d' % (which, i), 'fn': 'unit_generated', 'kwargs': {'which': which, 'n': n if q else n * 40}})
+    us.append({'name': 'gen-peaks-long', 'fn': 'unit_generated', 'kwargs': {'which': 'peaks_long', 'n': 60 if q else 2000}})
     ns = 4
     for s in range(ns):
         us.append({'name': 'peaks-exhaustive-%d' % s, 'fn': 'unit_peaks_exhaustive', 'kwargs': {'maxlen': 6 if q else 8, 'alphabet': 4, 'shard': s, 'nshards': ns}})
